@@ -200,7 +200,7 @@ PROPS["C13"] = {
 # ------------------------------------------------------------------ C25
 SPL = "physical::operators::spillable"
 PROPS["C25"] = {
-    "files": ["verus/c25_limit.vrs", "verus/c25_spilled_fetch.vrs", "kani/spillable.rs", "kani/sort.rs", "kani/inc/sort_carriers.rs"],
+    "files": ["verus/c25_limit.vrs", "verus/c25_spilled_fetch.vrs", "verus/c25_compare_rows.vrs", "kani/spillable.rs", "kani/sort.rs", "kani/inc/sort_carriers.rs"],
     "level": "proof",
     "explanation": "LIMIT/OFFSET arithmetic: LimitState::take_from and satisfied are copied verbatim and verified by Verus with RecordBatch as a carrier (num_rows, slice). With ghost `consumed` = input rows "
                    "seen so far, the counters satisfy skipped = min(consumed, skip), fetched = clamp(consumed - skip, 0, fetch), and the emitted batch is EXACTLY input rows "
@@ -228,11 +228,14 @@ PROPS["C25"] = {
     "verus": [
         V("c25_limit", "LimitState::{take_from, satisfied}",
           "invariant preserved; skip/fetch unchanged; emitted rows == input rows [max(consumed,skip), min(consumed+n, skip+fetch)); None iff that range is empty; slice preconditions met; no overflow"),
+        V("c25_compare_rows", "streaming_k_way_merge::compare_rows (closure body: the whole per-key loop)",
+          "for ANY number of sort keys, given that both batches evaluate every key: the result == the lexicographic order over the keys in key order, each key compared by Arrow's comparator built with descending == (direction is DESC) and nulls_first == (nulls is NULLS FIRST) on the two key columns at (row_a, row_b); the first key that does not tie decides, Equal only when every key ties (loop invariant, no bound on the key count)"),
         V("c25_spilled_fetch", "ExternalSortExec::execute (spilled branch: the `match self.fetch` statement and its truncation loop)",
           "for ANY number of merged batches of any sizes: the output batches concatenated == the first min(fetch, total) rows of the merged batches concatenated, in order (all rows for fetch = None); slice preconditions met; `remaining -= n` never underflows (loop invariant over the whole Vec, no bound)"),
     ],
     "trusted_base": [
         "carrier contracts on arrow RecordBatch (R6): num_rows() == number of rows; slice(o,l) is rows[o..o+l] and requires o+l <= num_rows",
+        "c25_compare_rows: the closure is verified as a function whose parameter list restates the closure's (outside the copied region); R5 indexed iteration over the `order_by` slice; carriers: evaluate_expr = oracle for the key column of a batch, ArrayRef::as_ref, arrow::array::make_comparator returns a closure whose call contract is Arrow's order under the SortOptions it was given (assumed dependency contract, the same one the Kani carrier states); assumed std contract: `==`/`!=` on std::cmp::Ordering is structural (assume_specification on PartialEq::eq)",
         "R5: in c25_spilled_fetch `for batch in result` is verified as `for gi in 0..result.len()` with `let batch = &result[gi]` (same elements, same order; the Vec is consumed in the real code, borrowed in the unit); R1: ExternalSortExec reduced to its `fetch` field",
         "R1: LimitState reduced to skip/fetch/skipped/fetched (operator plumbing fields dropped); ghost parameter `consumed` added to take_from's verified signature (spec-only)",
         "the stream::unfold loop that calls take_from once per batch, partitions in index order, is structural and not verified",
@@ -240,8 +243,8 @@ PROPS["C25"] = {
         "carriers (R6) for the spilled-sort regions: RecordBatch = a range of rows (num_rows, slice with its bounds precondition asserted), Vec = small list, run readers yield the following batches of their run, build_merged_batch = take(row i of the batch currently in run_buffers[run]); evaluate_expr / read_parquet / merge_runs are oracles",
     ],
     "not_under_contract": ["Arrow's lexsort_to_indices / take themselves (the dependency's: what they are ASKED for is under contract, not what they do)", "SortExec::execute around sort_batch (input collection, concat_batches, Utf8 promotion)", "the minimum search across runs and build_merged_batch / build_merged_batch_final bodies (Arrow take/concat)", "multi_pass_merge file handling"],
-    "technique": "Verus on the verbatim LimitState methods with RecordBatch as a carrier type and a ghost consumed-rows counter, and on the verbatim fetch-truncation statement of the spilled sort (loop invariant, unbounded); Kani on verbatim regions / whole bodies (bind_order_by defaults, the planner's Limit arm, both sort_batch functions, the spilled sort's comparator, merge step and fetch) compiled against carrier types that record what the Arrow dependency is asked for",
-    "level_text": "Deductive and unbounded for LIMIT/OFFSET arithmetic (every skip/fetch pair, batch size and batch split), for the binder's direction / NULL-placement defaults, for the planner's Sort+Limit fusion and for the per-key merge comparator (loop-free, full domain). The spilled sort's fetch truncation loop is also deductive and unbounded (Verus loop invariant over any number of merged batches; the bounded Kani harness of the same region stays as a cross-check that yields counterexamples). The sort requests, the merge step and the multi-key comparator loop are decided for bounded list lengths (<= 3 keys / columns / batches / queued rows), labelled bounded.",
+    "technique": "Verus on the verbatim LimitState methods with RecordBatch as a carrier type and a ghost consumed-rows counter, on the verbatim fetch-truncation statement of the spilled sort and on the verbatim per-key loop of its merge comparator (loop invariants, unbounded); Kani on verbatim regions / whole bodies (bind_order_by defaults, the planner's Limit arm, both sort_batch functions, the spilled sort's comparator, merge step and fetch) compiled against carrier types that record what the Arrow dependency is asked for",
+    "level_text": "Deductive and unbounded for LIMIT/OFFSET arithmetic (every skip/fetch pair, batch size and batch split), for the binder's direction / NULL-placement defaults, for the planner's Sort+Limit fusion and for the per-key merge comparator (loop-free, full domain). The spilled sort's fetch truncation loop is also deductive and unbounded (Verus loop invariant over any number of merged batches; the bounded Kani harness of the same region stays as a cross-check that yields counterexamples). The merge comparator's whole per-key loop is deductive and unbounded as well (Verus loop invariant, any number of sort keys; the bounded Kani harnesses of the same text stay as the counterexample-producing cross-check). The sort requests and the merge step are decided for bounded list lengths (<= 3 keys / columns / batches / queued rows), labelled bounded.",
     "level_note": "Trusted: Verus/Z3, Kani/CBMC; carrier contracts on arrow RecordBatch, lexsort_to_indices, take, make_comparator (what they are asked for is under contract, what they do is the dependency's); the async operator plumbing is outside.",
 }
 
